@@ -46,7 +46,7 @@ DEAD_BRANCHES = (
 )
 
 
-def build(cx, fe, tier, info, only=None):
+def build(cx, fe, tier, info, only=None, aspect=None):
     reg = new_registry(fe)
     M.install_bound_api(reg, cx)
     M.install_sampler_hooks(reg)
@@ -166,6 +166,13 @@ def build(cx, fe, tier, info, only=None):
     G3 = {}
     c_run = SC.run_contract(G3)
     reg.add_contract(c_run)
+    if aspect is not None:
+        # extra ghost state / obligations of another property woven into the
+        # same symbolic execution of run() (C05: file in sync)
+        aspect.install(reg, ex, dict(
+            run=c_run, add_bound=c_ab, add_samples=c_as, setter=c_ds,
+            write=reg.contracts[SQ + 'write'],
+            write_shell_update=reg.contracts[SQ + 'write_shell_update']))
 
     for vb in (False, True):
         for fl in (False, True):
